@@ -195,6 +195,8 @@ Fixpoint decode (l : list Uint63.int) : list item :=
        | 4 => In t (IRecv (Some a))
        | 5 => In t (IRecv None)
        | 6 => In t IStop
+       | 7 => In t (IShiftKeys (a * sec))
+       | 8 => In t (ISetAttempts a)
        | 10 => Out t OInit
        | 11 => Out t OResp
        | 12 => Out t OKeepalive
